@@ -256,6 +256,20 @@ def _ast_twin(src, kind):
             out.append(st)
         body[:] = out
 
+    class AugExpand(ast.NodeTransformer):
+        # x += <number>  ->  x = x + <number>   (numbers only: for lists `+=` is in-place and not the same thing)
+        def visit_AugAssign(self, node):
+            if isinstance(node.value, ast.Constant) and isinstance(node.value.value, (int, float)) and \
+                    not isinstance(node.value.value, bool) and isinstance(node.op, (ast.Add, ast.Sub)) and \
+                    isinstance(node.target, (ast.Name, ast.Attribute)):
+                import copy as _copy
+                load = _copy.deepcopy(node.target)
+                load.ctx = ast.Load()
+                return ast.Assign([node.target], ast.BinOp(load, node.op, node.value))
+            return node
+
+    if kind == 'auto-augassign-expanded':
+        tree = AugExpand().visit(tree)
     if kind == 'auto-split-and':
         tree = SplitAnd().visit(tree)
     elif kind == 'auto-join-nested-if':
@@ -292,7 +306,7 @@ def _ast_twin(src, kind):
 
 AUTO_TWINS = ('auto-reformat', 'auto-rename-locals', 'auto-flip-if-else', 'auto-compare-spelling',
               'auto-else-after-jump', 'auto-split-and', 'auto-join-nested-if', 'auto-tuple-assign-split',
-              'auto-strip-logging', 'auto-log-at-entry')
+              'auto-strip-logging', 'auto-log-at-entry', 'auto-augassign-expanded')
 
 
 def _auto_twin(args):
